@@ -40,7 +40,8 @@ ASSUMPTIONS = [
     "an OSError subclass, or returns normally with a result and an on-disk effect identical "
     "to the fault-free execution (a failing probe that the code legitimately absorbs)",
     "a crash is os._exit in a forked process: no finally/__exit__/atexit, Python-level "
-    "buffers lost; tearing inside one write() and power-loss reordering are not modelled",
+    "buffers lost; tearing inside one write() is modelled separately by cutting each file "
+    "the operation wrote at sampled byte offsets; power-loss reordering is not modelled",
     "an overwrite that fails or is interrupted may damage the name being overwritten; all "
     "other names must survive unchanged"]
 MANIFEST = {
@@ -534,6 +535,90 @@ def run_storage(case):
                     break
             if len(v) > 5:
                 break
+    # ---- torn writes: an interruption INSIDE a write leaves a prefix of the file that was
+    # being written.  Every file the operation creates or changes is cut at sampled byte
+    # offsets; a fresh reader must find each chunk complete, absent or detectably invalid,
+    # and a gzip-stored file (whose truncation the stream format reveals) either complete
+    # or failing with the documented error - never shorter contents served as if complete
+    if case["op"] in ("store_chunk_new", "store_chunk_overwrite", "store_file",
+                      "create+write", "store+close", "file_ops") and len(v) <= 5:
+        top = tempfile.mkdtemp(prefix="c18t-")
+        try:
+            tmp = os.path.join(top, "tmp")
+            os.makedirs(tmp)
+            sc = Scenario(np, case, top)
+            sc.prepare()
+
+            def snapshot(d):
+                out = {}
+                for rel in _listing(d):
+                    with open(os.path.join(d, rel), "rb") as fh:
+                        out[rel] = fh.read()
+                return out
+            before = snapshot(sc.d)
+            saved = tempfile.tempdir
+            tempfile.tempdir = tmp
+            try:
+                sc.operate()
+            finally:
+                tempfile.tempdir = saved
+            after = snapshot(sc.d)
+            changed = [rel for rel in after if before.get(rel) != after[rel]]
+            r5 = random.Random(len(changed) * 7919 + case.get("variant", 0))
+            for rel in changed:
+                full = after[rel]
+                n = len(full)
+                cuts = sorted({0, 1, 2, 9, 10, 11, 17, 18, n // 2, n - 9, n - 8, n - 1}
+                              | {r5.randrange(n + 1) for _ in range(8)})
+                for cut in [c for c in cuts if 0 <= c < n]:
+                    with open(os.path.join(sc.d, rel), "wb") as fh:
+                        fh.write(full[:cut])
+                    obs["torn_write_states"] = obs.get("torn_write_states", 0) + 1
+                    audit = sc.audit()
+                    label = f"{rel} cut to {cut} of {n} bytes"
+                    for it, got in audit.items():
+                        if it == "__dataset__" or got[0] != "ok":
+                            continue
+                        cands = [x for x in (sc.model.get(it), sc.pending.get(it))
+                                 if x is not None]
+                        if it[0] == "file" and sc.pending.get(it, 0) is None:
+                            continue          # info file: any readable content
+                        if any(_same_value(np, got[1], c) for c in cands):
+                            continue
+                        if it[0] == "chunk":
+                            v.append({"kind": "wrong-content-after-interrupted-write",
+                                      "detail": f"{ctx}: {label}: chunk {it[1:]} decodes "
+                                      "successfully but differs from everything that was "
+                                      "ever stored for it"})
+                        elif rel.endswith(".gz") and cut > 0:
+                            # (an EMPTY .gz is a valid gzip file of zero members and reads
+                            # as empty content - counted with the plain files below)
+                            v.append({"kind": "truncated-gzip-file-served-as-if-complete",
+                                      "detail": f"{ctx}: {label}: {it[1]!r} is fetched "
+                                      f"without error as {len(got[1])} bytes"})
+                        else:
+                            obs["torn_plain_files_read_partially"] = obs.get(
+                                "torn_plain_files_read_partially", 0) + 1
+                    for it, want in sc.model.items():
+                        if it in sc.pending:
+                            continue
+                        got = audit.get(it)
+                        # only the file being written is torn; shard files hold several
+                        # chunks, so earlier chunks of the SAME shard file may be lost
+                        if got is not None and got[0] == "ok" and \
+                                not _same_value(np, got[1], want):
+                            v.append({"kind": "earlier-data-lost-or-changed-after-fault",
+                                      "detail": f"{ctx}: {label}: item {it} reads back "
+                                      "with different content"})
+                            break
+                    if len(v) > 5:
+                        break
+                with open(os.path.join(sc.d, rel), "wb") as fh:
+                    fh.write(full)
+                if len(v) > 5:
+                    break
+        finally:
+            shutil.rmtree(top, ignore_errors=True)
     # ---- a real kernel fault: the file-size limit of the process (RLIMIT_FSIZE, SIGXFSZ
     # ignored) makes write(2) store only part of a buffer and fail with EFBIG afterwards -
     # the behaviour of a full disk or quota, which no Python-level exception can imitate
@@ -1143,6 +1228,7 @@ def gates(obs, tier):
         "absorbed_faults_seen": obs.get("absorbed_faults", 0) > 0,
         "data_access_errors_seen": obs.get("fault_outcomes", {}).get("DataAccessError", 0) > 100,
         "http_faults_fired": obs.get("http_faults_fired", 0) > 30,
+        "torn_write_states_audited": obs.get("torn_write_states", 0) > 300,
         "kernel_file_size_limit_faults": obs.get("size_limit_raised", 0) > 50
         and obs.get("size_limit_returned", 0) > 0,
         "on_disk_buffer_files_intercepted": ck.get("unlink", 0) > 0,
